@@ -65,8 +65,8 @@ func (p gateProg) String() string {
 }
 
 type gateInfo struct {
-	pollWaited, rebWaited                  int
-	polls, rebalances, allows, noopRelease int
+	pollWaited, rebWaited     int
+	polls, rebalances, allows int
 }
 
 func runGate(cfg sched.Config, p gateProg, choose func(int) int) (*sched.Result, gateInfo) {
@@ -135,9 +135,7 @@ func runGate(cfg sched.Config, p gateProg, choose func(int) int) (*sched.Result,
 			if kind == 'e' {
 				// PollRecords: `defer func() { if len(fetches) == 0 { c.unaddPoller() } }()`
 				registered--
-				before := g.State()
 				g.UnaddPoller()
-				_ = before
 				maybeRegistered--
 			} else {
 				*mine++
